@@ -202,12 +202,13 @@ def gen_call(ctx, sh, defaults, free, tag, wit=None):
     return c
 
 
-def min_call(ctx, sh, tag):
-    """the plainest complete call of the shape: required and defaulted parameters positional, no extras"""
+def min_call(ctx, sh, tag, explicit=None):
+    """the plainest complete call of the shape: required and defaulted parameters positional, no extras
+    (explicit: also spell out every keyword-only parameter, defaulted or not)"""
     c = Call()
     c.wit = None
     c.args = tuple(ctx.atom(ArgSort, tag + POS[i]) for i in range(sh['npos']))
-    c.kw = {KWO[i]: ctx.atom(ArgSort, tag + KWO[i]) for i in range(sh['nkwo']) if not sh['kwodef'][i]}
+    c.kw = {KWO[i]: ctx.atom(ArgSort, tag + KWO[i]) for i in range(sh['nkwo']) if explicit is not None or not sh['kwodef'][i]}
     c.named, c.extras, c.xkw, c.desc = {}, (), {}, {}
     return c
 
@@ -339,7 +340,7 @@ class ModuleState:
             if not (name == 'klepto' or name.startswith('klepto.')) or mod is None or '.tests' in name:
                 continue
             for n, v in list(vars(mod).items()):
-                if n.startswith('__') and n.endswith('__'):
+                if n in ('__builtins__', '__annotations__', '__path__', '__all__'):
                     continue
                 if isinstance(v, kinds):
                     try:
@@ -448,6 +449,11 @@ class Keys:
             if self.cfg.get('canary'):
                 return len(outs) == 1, {'canary': 'negated obligation: keys stable across sessions'}
             return len(outs) > 1, {'keys_by_session': {k[:300]: v for k, v in outs.items()}}
+        if self.cfg.get('kworder'):
+            p = subprocess.run([sys.executable, '-c', code], input=json.dumps({'cfg': self.cfg, 'assignment': assignment}),
+                               capture_output=True, text=True, env=dict(os.environ, PYTHONHASHSEED='1'), timeout=120)
+            lines = p.stdout.strip().splitlines()
+            return (len(lines) == 2 and lines[0] != lines[1]), {'keys_by_keyword_order': lines[:2], 'stderr': p.stderr[-200:]}
         for seed in range(10):
             env = dict(os.environ, PYTHONHASHSEED=str(seed))
             p = subprocess.run([sys.executable, '-c', code], input=json.dumps({'cfg': self.cfg, 'assignment': assignment}),
@@ -492,7 +498,7 @@ class Keys:
         if self.state is None:
             self.state = module_state()
         self.state.reset()              # every path (and every concrete replay) starts like a fresh interpreter
-        if cfg.get('sibling') and defaults:
+        if cfg.get('sibling') and defaults and not cfg.get('scenario'):
             # another function object of the same code with other default objects is used first
             d0 = {n: ctx.atom(ArgSort, 'S' + n) for n in defaults}
             f0, _ = make_function(sh, d0, [], method)
@@ -530,20 +536,41 @@ class Keys:
             except Exception:
                 pass
             f = inst.f
+        callsh = sh
+        if cfg.get('partial') and sh['nkwo']:
+            # the cached callable is functools.partial(f, k=<value>): k behaves like a parameter whose default is that value
+            import functools
+            kn = KWO[sh['nkwo'] - 1]
+            fixed = ctx.atom(ArgSort, 'PF')
+            f = functools.partial(f, **{kn: fixed})
+            defaults = dict(defaults)
+            defaults[kn] = fixed
+            callsh = dict(sh, kwodef=list(sh['kwodef'][:-1]) + [True])
         keyf, g = self.keyfun(f)
+        if defaults and cfg.get('selfprime', True) and not cfg.get('scenario') and 'C17' not in props:
+            # the same function has been called before with every defaulted parameter spelled out (other values)
+            P0 = min_call(ctx, sh, 'Z', explicit=callsh)
+            try:
+                keyf(*(((_Inst.of(g if g is not None else keyf, 'f'),) if method else ()) + P0.args), **P0.kw)
+            except (PathPruned, Inconclusive):
+                raise
+            except Exception:
+                pass
         if cfg.get('scenario') == 'fname':
             return self.fn_fname(ctx, sh, defaults, keyf)
         if cfg.get('scenario') == 'session':
             return self.fn_session(ctx, sh, defaults, keyf)
-        A = gen_call(ctx, sh, defaults, True, 'A', wit=cfg.get('wit'))
+        A = gen_call(ctx, callsh, defaults, True, 'A', wit=cfg.get('wit'))
         selfA = selfB = ()
         same_inst = True
         if method:
             # the instance may belong to a subclass that overrides the method (the base's cached method is called on it)
             may_override = 'self' in spec            # only matters where klepto has to recognise the instance
-            o1 = _Inst.of(g if g is not None else keyf, 'f', may_override and ctx.bool('override'))
+            kind1 = ctx.choice(3, 'inst') if may_override else 0       # plain / subclass overriding the method / false in a boolean context
+            o1 = _Inst.of(g if g is not None else keyf, 'f', kind1 == 1, kind1 == 2)
             same_inst = ctx.bool('sameinst')
-            o2 = o1 if same_inst else _Inst.of(g if g is not None else keyf, 'f', may_override and ctx.bool('override'))
+            kind2 = 0 if same_inst else (ctx.choice(3, 'inst') if may_override else 0)
+            o2 = o1 if same_inst else _Inst.of(g if g is not None else keyf, 'f', kind2 == 1, kind2 == 2)
             selfA, selfB = (o1,), (o2,)
         shape_class = {'varargs': sh['varargs'], 'kwonly': sh['nkwo'] > 0, 'varkw': sh['varkw'], 'defaults': sh['ndef'] > 0}
         if method:
@@ -557,9 +584,12 @@ class Keys:
             return
         if cfg.get('print_key'):
             print(repr(kA))
+            if cfg.get('kworder'):
+                print(repr(keyf(*(selfA + A.args), **dict(reversed(list(A.kw.items()))))))
             return
         if 'C17' in props:
-            kA2 = keyf(*(selfA + A.args), **A.kw)
+            kw2 = dict(reversed(list(A.kw.items()))) if cfg.get('kworder') else A.kw      # the same call, keywords in another order
+            kA2 = keyf(*(selfA + A.args), **kw2)
             r = (kA == kA2)
             ok = bool(r)
             names = selected(sh, spec)[0]
@@ -569,7 +599,7 @@ class Keys:
                       {'kind': 'key depends on set iteration order' + (' (>= 2 ignored names, non-flat key: NULLs inserted in set order)' if diag else ''),
                        'shape_class': shape_class, 'diagnosed': diag})
             return
-        B = gen_call(ctx, sh, defaults, False, 'B', wit=cfg.get('wit'))
+        B = gen_call(ctx, callsh, defaults, False, 'B', wit=cfg.get('wit'))
         kB = keyf(*(selfB + B.args), **B.kw)
         keq = bool(kA == kB)
         beq = binding_eq(sh, spec, A, B)
@@ -623,9 +653,24 @@ class Keys:
         A = gen_call(ctx, sh, defaults, True, 'A', wit='typed')
         if A.wit is None:
             raise PathPruned()
-        prime = ctx.choice(len(WIT) + 1, 'prime')
+        prime = ctx.choice(len(WIT) + 2, 'prime')
         info = {'kind': 'key depends on what the process computed before'}
+
+        def prime_sibling():
+            # session 1 has keyed another function object of the same code (other default objects) before
+            d0 = {n: ctx.atom(ArgSort, 'T' + n) for n in defaults}
+            f0, _ = make_function(sh, d0, [])
+            k0, _g0 = self.keyfun(f0)
+            P = min_call(ctx, sh, 'U')
+            try:
+                k0(*P.args, **P.kw)
+            except (PathPruned, Inconclusive):
+                raise
+            except Exception:
+                pass
         if cfg.get('print_key'):          # concrete replay: one real interpreter per session
+            if cfg['print_key'] == 'primed' and prime == len(WIT) + 1 and defaults:
+                prime_sibling()
             if cfg['print_key'] == 'primed' and prime < len(WIT) and prime != A.wit:
                 same = lambda v: type(v) is type(WIT[A.wit]) and v == WIT[A.wit]
                 keyf(*tuple(WIT[prime] if same(v) else v for v in A.args), **{n: (WIT[prime] if same(v) else v) for n, v in A.kw.items()})
@@ -635,6 +680,8 @@ class Keys:
         try:
             self.state.reset() if self.state else None
             cryptoshim.SESSION[0] = 1
+            if prime == len(WIT) + 1 and defaults:
+                prime_sibling()
             if prime < len(WIT) and prime != A.wit:
                 pa = tuple(WIT[prime] if (type(v) is type(WIT[A.wit]) and v == WIT[A.wit]) else v for v in A.args)
                 pk = {n: (WIT[prime] if (type(v) is type(WIT[A.wit]) and v == WIT[A.wit]) else v) for n, v in A.kw.items()}
@@ -689,8 +736,10 @@ class _Inst:
     """instance whose attribute named like the method is the bound decorated method (what klepto looks for to spot 'self')"""
 
     @classmethod
-    def of(cls, g, name, override=False):
+    def of(cls, g, name, override=False, falsy=False):
         C = type('Obj', (cls,), {name: g} if callable(g) and hasattr(g, '__get__') else {})
+        if falsy:                      # an instance that is false in a boolean context (an empty container class)
+            C = type('Empty', (C,), {'__len__': lambda self: 0})
         if override:
             def other(self, *a, **k):
                 return None
@@ -751,7 +800,7 @@ def plan(prop, tier):
         name = 'keys/%s/%s/ignore=%s/%s' % (shape_name(sh), km, kw.get('ignore', ()), kw.get('via', 'cache'))
         if sh['ndef'] or any(sh['kwodef']):
             kw.setdefault('sibling', True)
-        for flag in ('method', 'bare', 'wit', 'scenario', 'bound', 'shifted'):
+        for flag in ('method', 'bare', 'wit', 'scenario', 'bound', 'shifted', 'partial', 'kworder'):
             if kw.get(flag):
                 name += '/%s%s' % (flag, '' if kw[flag] is True else '=' + str(kw[flag]))
         if kw.get('pos'):
@@ -783,6 +832,8 @@ def plan(prop, tier):
             if sh['npos'] <= 2 and (q is False or sh['nkwo'] == 0):
                 add(sh, 'rawsent', method=True)
                 add(sh, 'rawsent', bound=True)          # the cached callable is a bound method
+            if sh['nkwo'] and (not q or sh['npos'] <= 1):
+                add(sh, 'rawsent', partial=True)        # the cached callable is functools.partial(f, k=value)
             # equal values of different types in every parameter: typed / repr-based keymaps must keep the bindings apart
             if 1 <= sh['npos'] + sh['nkwo'] <= 2 and not sh['varargs'] and not sh['varkw']:
                 for km in ('rawtyped', 'strtyped', 'strflat', 'md5typed'):
@@ -824,6 +875,9 @@ def plan(prop, tier):
             for spec in specs:
                 for km in (('raw', 'str', 'strflat', 'picklenf', 'md5nf') if q else ('raw', 'str', 'strflat', 'pickle', 'picklenf', 'md5nf')):
                     add(sh, km, ignore=list(spec))
+            if 2 <= sh['npos'] + sh['nkwo'] <= 3 and not sh['varargs'] and not sh['varkw']:
+                for km in ('rawtyped', 'strtyped', 'md5typed', 'strflat'):
+                    add(sh, km, wit='typed2', kworder=True)       # flat keymaps: the order of the keywords must not matter
             if sh['npos'] or sh['nkwo']:
                 for km in (('str', 'strflat', 'md5', 'rawtyped') if q else ('raw', 'rawtyped', 'rawsent', 'str', 'strflat', 'strtyped', 'pickle', 'picklenf', 'md5', 'md5nf')):
                     add(sh, km, scenario='session')
